@@ -3,7 +3,10 @@ use std::borrow::{Borrow, BorrowMut};
 use std::ops::{Deref, DerefMut};
 use std::pin::Pin;
 use std::ptr::NonNull;
+#[cfg(not(folo_verif_loom))]
 use std::sync::{Arc, Mutex};
+#[cfg(folo_verif_loom)]
+use loom::sync::{Arc, Mutex};
 use std::{fmt, mem, ptr};
 
 use crate::{NEVER_POISONED, Pooled, RawOpaquePoolThreadSafe, RawPooledMut};
